@@ -866,7 +866,11 @@ class ParserFactory:
 
     # Called by the parser whenever a token doesn't match any rule.
     def p_error(self, token):
-        assert token is not None, "Unknown error, please report this."
+        if token is None:
+            # The input ended in the middle of a definition.
+            self.errors.append(
+                ('Unexpected end of file.', self.lexer.lex.lineno, self.path))
+            return
         logger.debug('Unexpected %s(%r) at line %d',
                      token.type,
                      token.value,
